@@ -98,11 +98,12 @@ static int should_fail(void)
 }
 ssize_t pwrite64(int fd, const void *buf, size_t n, off64_t off)
 {
-	if (fd >= 0 && fd < 1024 && watched[fd]) {
-		if (should_fail()) { errno = EIO; return -1; }
-		rec('W', off, n, buf);
-	}
-	return ((ssize_t (*)(int, const void *, size_t, off64_t)) dlsym(RTLD_NEXT, "pwrite64"))(fd, buf, n, off);
+	ssize_t r;
+	if (fd >= 0 && fd < 1024 && watched[fd] && should_fail()) { errno = EIO; return -1; }
+	r = ((ssize_t (*)(int, const void *, size_t, off64_t)) dlsym(RTLD_NEXT, "pwrite64"))(fd, buf, n, off);
+	/* only calls that took effect are part of the history (a write on a read-only descriptor fails with EBADF) */
+	if (r > 0 && fd >= 0 && fd < 1024 && watched[fd]) rec('W', off, r, buf);
+	return r;
 }
 ssize_t pwrite(int fd, const void *buf, size_t n, off_t off)
 {
@@ -113,8 +114,11 @@ ssize_t write(int fd, const void *buf, size_t n)
 	ssize_t (*rw)(int, const void *, size_t) = dlsym(RTLD_NEXT, "write");
 	if (fd >= 0 && fd < 1024 && watched[fd]) {
 		off_t pos = lseek(fd, 0, SEEK_CUR);
+		ssize_t r;
 		if (should_fail()) { errno = EIO; return -1; }
-		rec('W', pos, n, buf);
+		r = rw(fd, buf, n);
+		if (r > 0) rec('W', pos, r, buf);
+		return r;
 	}
 	return rw(fd, buf, n);
 }
@@ -130,16 +134,19 @@ int fdatasync(int fd)
 }
 int ftruncate(int fd, off_t len)
 {
-	if (fd >= 0 && fd < 1024 && watched[fd]) rec('T', len, 0, 0);
-	return ((int (*)(int, off_t)) dlsym(RTLD_NEXT, "ftruncate"))(fd, len);
+	int r = ((int (*)(int, off_t)) dlsym(RTLD_NEXT, "ftruncate"))(fd, len);
+	if (r == 0 && fd >= 0 && fd < 1024 && watched[fd]) rec('T', len, 0, 0);
+	return r;
 }
 int ftruncate64(int fd, off64_t len)
 {
-	if (fd >= 0 && fd < 1024 && watched[fd]) rec('T', len, 0, 0);
-	return ((int (*)(int, off64_t)) dlsym(RTLD_NEXT, "ftruncate64"))(fd, len);
+	int r = ((int (*)(int, off64_t)) dlsym(RTLD_NEXT, "ftruncate64"))(fd, len);
+	if (r == 0 && fd >= 0 && fd < 1024 && watched[fd]) rec('T', len, 0, 0);
+	return r;
 }
 int fallocate(int fd, int mode, off_t off, off_t len)
 {
-	if (fd >= 0 && fd < 1024 && watched[fd]) rec('A', off, len, 0);
-	return ((int (*)(int, int, off_t, off_t)) dlsym(RTLD_NEXT, "fallocate"))(fd, mode, off, len);
+	int r = ((int (*)(int, int, off_t, off_t)) dlsym(RTLD_NEXT, "fallocate"))(fd, mode, off, len);
+	if (r == 0 && fd >= 0 && fd < 1024 && watched[fd]) rec('A', off, len, 0);
+	return r;
 }
